@@ -31,7 +31,9 @@ class Ctx:
 
 
 def _run_group(args):
-    modname, gname, tier, seed = args
+    modname, gname, tier, seed = args[:4]
+    from vt import interp as _IN
+    _IN.Interp.global_inline = frozenset(args[4]) if len(args) > 4 else frozenset()
     t0 = time.time()
     try:
         mod = importlib.import_module("props." + modname)
@@ -183,6 +185,63 @@ def main(argv=None):
             errors.append(c)
         else:
             undecided.append(c)
+    # Contracts of INTERNAL helpers are proof devices, not part of a property: when one is not met as stated (the helper's
+    # interface or its share of the work changed) the public obligation that used it is re-checked with the helper's REAL body
+    # inlined; proved that way, the decomposition has changed but the property has not
+    regroup = {}
+    for c in violations + undecided:
+        src = c.get("shared_from", prop)
+        try:
+            decls = getattr(importlib.import_module("props." + src), "INTERNAL", [])
+        except Exception:
+            decls = []
+        for pref, pub, drops in decls:
+            if c["obligation"].startswith(pref):
+                regroup.setdefault((src, pub, tuple(drops)), []).append(c)
+                break
+    if regroup:
+        with mp.get_context("fork").Pool(min(a.jobs, len(regroup))) as pool:
+            rer = pool.map(_run_group, [(src, pub, tier, seed, list(drops)) for (src, pub, drops) in regroup], chunksize=1)
+        for (key, cs), r in zip(regroup.items(), rer):
+            sts = [x["status"] for x in r["clauses"]]
+            pub_ids = ", ".join(sorted({x["obligation"] for x in r["clauses"]}))[:200]
+            try:
+                pub_is_bounded = key[1] in {g.__name__ for g in getattr(importlib.import_module("props." + key[0]), "BOUNDED", [])}
+            except Exception:
+                pub_is_bounded = False
+            if pub_is_bounded and sts and all(x == "discharged" for x in sts):
+                # the public counterpart is a BOUNDED semantic check: it cannot prove the obligation, but it says that the structure
+                # the internal obligation looks for is not needed for the behaviour -- undecided, not a violation
+                for c in cs:
+                    if c in violations:
+                        violations.remove(c)
+                        undecided.append(c)
+                        c["status"] = "undecided"
+                    c["detail"] = (c.get("detail") or "")[:300] + " [an obligation on the internal structure; the bounded semantic check %s passes]" % pub_ids
+            elif sts and all(x == "discharged" for x in sts):
+                for c in cs:
+                    (violations if c in violations else undecided).remove(c)
+                    c["detail"] = "helper contract not met as stated (%s); the public obligation(s) %s were proved with the real bodies of %s inlined" % (
+                        (c.get("detail") or "")[:160], pub_ids, ", ".join(key[2]))
+                    c["status"], c["backend"] = "discharged", "inlined"
+                    discharged += 1
+            elif any(x == "refuted" for x in sts):
+                for x in r["clauses"]:
+                    if x["status"] == "refuted":
+                        x["group"], x["detail"] = key[1], "[with %s inlined] %s" % (", ".join(key[2]), x.get("detail", ""))
+                        if key[0] != prop:
+                            x["shared_from"] = key[0]
+                        if not any(v["obligation"] == x["obligation"] for v in violations):
+                            clauses.append(x)
+                            violations.append(x)
+            else:
+                for c in cs:
+                    if c in violations:
+                        violations.remove(c)
+                        undecided.append(c)
+                        c["status"] = "undecided"
+                    c["detail"] = (c.get("detail") or "")[:300] + " [helper contract in question; the public obligation(s) %s with the real bodies inlined: %s]" % (
+                        pub_ids, "; ".join("%s" % (x.get("detail") or "")[:120] for x in r["clauses"] if x["status"] != "discharged")[:300])
     bounded_fail = [c for c in bounded if c["status"] == "refuted"]
     for c in bounded_fail:
         k = match_known(known, prop, c)
@@ -209,6 +268,20 @@ def main(argv=None):
         key = R.find_replay(mod, c["obligation"])[1:3] + (json.dumps(R.find_replay(mod, c["obligation"])[3], sort_keys=True),)
         rep = R.make_replay(prop, c, path, seed, mod, cached=done_replays.get(key))
         done_replays[key] = rep.get("replay")
+        kf_tag = (rep.get("replay") or {}).get("known_finding")
+        if rep.get("reproduced") and kf_tag and any(k.get("id") == kf_tag for k in known) and match_known(known, prop, c) is None:
+            # the native search only ran into a RECORDED finding (which belongs to another obligation): that says nothing about
+            # this one, which stays undecided
+            c["detail"] = (c.get("detail") or "") + " [native search: the recorded finding %s was met and skipped]" % kf_tag
+            fr = R.find_replay(mod, c["obligation"])
+            res2 = R.run_script(fr[1], fr[2], dict(fr[3], skip_known=True), seed)
+            if not (res2.get("reproduced") and not res2.get("known_finding")):
+                continue
+            rep = dict(rep, replay=res2, reproduced=True)
+            try:
+                json.dump(dict(json.load(open(path)), replay=res2, reproduced=True), open(path, "w"), indent=1, default=str)
+            except Exception:
+                pass
         if rep.get("reproduced"):
             c["detail"] = "not decided symbolically (%s); the native search on the real code found a failing input: %s" % (
                 (c.get("detail") or "")[:200], json.dumps(rep["replay"].get("observed", rep["replay"].get("what", "")), default=str)[:300])
